@@ -43,6 +43,14 @@ def run(rep, tier, seed):
     progs += [streams.gen_fol_program(seed + 67, k, quant=True, n_ops=(2, 8), mid_facts=0.1) for k in range(n - n // 2)]
     progs += [streams.gen_fol_program(seed + 71, k, quant=False, n_ops=(0, 4), n_conn=(1, 2), down_first=True) for k in range(n // 2)]
     progs += [streams.gen_downfirst_program(seed + 73, k) for k in range(2 * n)]      # tiny programs, cheap
+    # a negated predicate that also occurs un-negated in another rule, premises known for different individuals: the tables of
+    # Not(P) and P are filled from different sides, in orders that depend on set iteration
+    import fol as _fol
+    import random as _random
+    from common import sub_seed as _ss
+    for k in range(n):
+        c = _fol.gen_c02_negshare_case(_random.Random(_ss(seed, "c10neg", k)))
+        progs.append({"kb": c["kb"], "facts": c["facts"], "ops": c["ops"] + [("passup",), ("passdown",)], "n_consts": c["n_consts"]})
     tmp = tempfile.mkdtemp(prefix="lnnverif_c10_")
     try:
         inp = os.path.join(tmp, "in.json")
